@@ -98,9 +98,31 @@ fn mkspan(a: u32, b: u32, c: u32, d: u32) -> Span {
     Span { start: Position { line: a, column: b }, end: Position { line: c, column: d } }
 }
 
+thread_local! {
+    /// (export_top_level_ids, enable_type_checks) used by every compilation of the harness: the
+    /// flags of CompilerSettings that change code generation; families run under the default and
+    /// under the other combinations
+    static SETTINGS: std::cell::Cell<(bool, bool)> = const { std::cell::Cell::new((false, true)) };
+}
+const DEFAULT_SETTINGS: (bool, bool) = (false, true);
+fn settings() -> (bool, bool) {
+    SETTINGS.with(|s| s.get())
+}
+fn set_settings(v: (bool, bool)) {
+    SETTINGS.with(|s| s.set(v));
+}
+fn compiler_settings() -> CompilerSettings {
+    let (export_top_level_ids, enable_type_checks) = settings();
+    CompilerSettings { export_top_level_ids, enable_type_checks }
+}
+fn settings_label() -> String {
+    let (e, t) = settings();
+    format!("export_top_level_ids={e},enable_type_checks={t}")
+}
+
 fn compile(src: &str) -> Result<Ptr<Chunk>, koto_bytecode::ModuleLoaderError> {
     let mut loader = ModuleLoader::default();
-    loader.compile_script(src, None, CompilerSettings::default())
+    loader.compile_script(src, None, compiler_settings())
 }
 
 fn run_real(src: &str) -> Real {
@@ -349,10 +371,39 @@ impl G {
             0 => self.simple(),
             1 => {
                 // further constructs with span handling of their own in the compiler
-                let j = self.rng.below(10);
+                let j = self.rng.below(16);
                 self.stat(format!("filler=1.{j}"));
                 let h = format!("h{}", self.uid());
                 match j {
+                    // type hints in every position (their spans must be popped again whether or not
+                    // type checks are compiled in)
+                    10 => vec![
+                        format!("{s}{M_HEADER}{h} = |a: Number, b: String| -> Number"),
+                        "  a".into(),
+                        format!("{s}{v} = {h}("),
+                        format!("  {a},"),
+                        "  'x'".into(),
+                        ")".into(),
+                    ],
+                    11 => vec![format!("{s}{M_HEADER}for {h}a: Number, {h}b: Number in [({a}, {b})]"), format!("  {v} = {h}a + {h}b")],
+                    12 => vec![format!("{s}let {v}: Number, {h}: String = {a}, 'x'")],
+                    13 => vec![format!("{s}{v} = id2("), "  |p: Number| -> Number p,".into(), format!("  {b}"), ")".into()],
+                    14 => vec![
+                        format!("{s}{M_HEADER}try"),
+                        format!("  throw 'inner {a}'"),
+                        format!("{M_HEADER}catch e: Number"),
+                        format!("  {v} = 1"),
+                        format!("{M_HEADER}catch e: String"),
+                        format!("  {v} = 2"),
+                        format!("{M_HEADER}catch other"),
+                        format!("  {v} = 3"),
+                    ],
+                    15 => vec![
+                        format!("{s}{v} = match {a}"),
+                        format!("  n: Number if n > {b} then 1"),
+                        "  t: String then 2".into(),
+                        "  else 3".into(),
+                    ],
                     0 => vec![
                         format!("{s}{M_HEADER}{h} = |(a, c), {{d}}|"),
                         "  b = a + c + d".into(),
@@ -689,20 +740,33 @@ impl G {
         }
         if first_arg.is_none() && self.rng.chance(1, 8) {
             // piped calls, one `->` per line; the call site is the line of the callee token
-            let pf = self.rng.below(8);
-            let wrapped = format!("id1({{go: {callee}}}).go");
+            let mut pf = self.rng.below(8);
+            if callee.contains('.') {
+                // `x -> f -> m.g` (a pipe whose left side is itself a piped call, into a chain) passes
+                // the wrong argument on the unchanged tree (a Function instead of the value), a
+                // code-generation defect outside this property, reported to the integrator: pipes
+                // into a chain are generated with a plain left side only
+                pf = *self.rng.pick(&[0usize, 3, 5, 6]);
+            }
+            if pf == 3 && self.calls_return {
+                // `x -> f(b)` pipes into the RESULT of f(b): only usable when f(b) never returns
+                pf = 0;
+            }
             let lines = match pf {
                 0 => vec![a.clone(), format!("{c}{e}  -> {callee}")],
                 1 => vec![a.clone(), "  -> id1".to_string(), format!("{c}{e}  -> {callee}")],
                 2 => vec![a.clone(), "  -> id1".to_string(), format!("{c}{e}  -> {callee} {b}")],
                 3 => vec![a.clone(), format!("{c}{e}  -> {callee}({b})")],
-                4 => vec![a.clone(), "  -> id1".to_string(), format!("{c}{e}  -> {wrapped}")],
+                // (a pipe into a chain that contains a call before its last access, `x -> g(m).f`, passes
+                // the wrong argument on the unchanged tree — a code-generation defect outside this
+                // property, reported to the integrator; not generated)
+                4 => vec![a.clone(), "  -> id1".to_string(), "  -> id1".to_string(), format!("{c}{e}  -> {callee}")],
                 5 => vec![format!("id1({a})"), format!("{c}{e}  -> ({callee})")],
                 6 => vec![format!("{a} ->"), format!("{c}{e}  {callee}")],
                 _ => vec![format!("[{a}, {b}]"), "  -> id1".to_string(), format!("{c}{e}  -> {callee}")],
             };
             let mut lines = lines;
-            if !self.calls_return && pf != 6 && self.rng.chance(1, 3) {
+            if !self.calls_return && pf != 6 && !callee.contains('.') && self.rng.chance(1, 3) {
                 lines.push("  -> id1".to_string());
             }
             let kind = format!("callform=pipe{pf}");
@@ -963,8 +1027,37 @@ fn gen_planted(rng: &mut Rng, allow_try: bool) -> Planted {
             let form = g.rng.below(6);
             g.stat(format!("native={form}"));
             let eager = *g.rng.pick(&[".fold 0, |p, q|", ".any |p|", ".all |p|", ".find |p|", ".position |p|"]);
-            let lazy = *g.rng.pick(&[".each |p|", ".keep |p|", ".each |p|"]);
-            let consumer = *g.rng.pick(&[".to_list()", ".to_tuple()", ".count()", ".last()", ".consume()", ".next()"]);
+            // every lazy adaptor that runs a callback (LAZY_ADAPTORS, checked against adaptors.rs)
+            let uses_p = expr.kind.starts_with("fault=param");
+            let lazy = loop {
+                let l = *g.rng.pick(&[".each |p|", ".keep |p|", ".take |p|", ".intersperse ||", ".each |p|"]);
+                if !(uses_p && l.ends_with("||")) {
+                    break l;
+                }
+            };
+            g.stat(format!("lazy_adaptor={}", lazy.split(' ').next().unwrap()));
+            // (intersperse runs its callback between the first and the second value)
+            let consumer = loop {
+                let c = *g.rng.pick(&[".to_list()", ".to_tuple()", ".count()", ".last()", ".consume()", ".next()"]);
+                if !(lazy.starts_with(".intersperse") && c == ".next()") {
+                    break c;
+                }
+            };
+            // the adaptor is consumed directly or through a copy (koto.copy / deep_copy / cycle):
+            // the copy reports the same frames
+            let copy = if form >= 3 { g.rng.weighted(&[3, 2, 2, 2]) } else { 0 };
+            if form >= 3 {
+                g.stat(format!("lazy_adaptor_copy={}", ["none", "koto.copy", "koto.deep_copy", "cycle"][copy]));
+            }
+            let copied = |it: &str| match copy {
+                1 => format!("koto.copy({it})"),
+                2 => format!("koto.deep_copy({it})"),
+                // (bounded: `cycle().to_tuple()` / `.to_list()` panic with `capacity overflow` on the size
+                // hint of the endless iterator before the first value is pulled — outside this property,
+                // reported to the integrator)
+                3 => format!("{it}.cycle().take(50)"),
+                _ => it.to_string(),
+            };
             match form {
                 0 => {
                     key.push(format!("{s}{v} = (1, 2)"));
@@ -983,6 +1076,10 @@ fn gen_planted(rng: &mut Rng, allow_try: bool) -> Planted {
                     key.push(format!("{s}{v} = [1, 2]"));
                     key.push(format!("  {adp}{lazy}"));
                     key.extend(indent(body, 4));
+                    if copy == 3 {
+                        key.push("  .cycle()".to_string());
+                        key.push("  .take(50)".to_string());
+                    }
                     key.push(format!("  {nat}{consumer}"));
                 }
                 _ => {
@@ -992,9 +1089,9 @@ fn gen_planted(rng: &mut Rng, allow_try: bool) -> Planted {
                     key.extend(indent(body, 4));
                     key.extend(g.fillers(0, 2, 1));
                     if form == 4 {
-                        key.push(format!("{s}{v} = {nat}{it}{consumer}"));
+                        key.push(format!("{s}{v} = {nat}{}{consumer}", copied(&it)));
                     } else {
-                        key.push(format!("{s}{v} = {it}"));
+                        key.push(format!("{s}{v} = {}", copied(&it)));
                         key.push(format!("  {nat}{consumer}"));
                     }
                 }
@@ -1137,6 +1234,8 @@ struct Ctx {
     open: Vec<String>,
     verbose: bool,
     mod_counter: u64,
+    /// cause rules of open findings are applied (off while the listed witnesses are replayed)
+    attribute: bool,
 }
 
 impl Ctx {
@@ -1336,16 +1435,16 @@ impl Ctx {
             let Some(instr) = reader.next() else { break };
             match chunk.debug_info.get_source_span(ip) {
                 None => {
-                    self.d("C12:instruction-without-span", json!({"replay_kind": "chunk", "program": src, "ip": ip}));
+                    self.d("C12:instruction-without-span", json!({"replay_kind": "chunk", "settings": [settings().0, settings().1], "program": src, "ip": ip}));
                     return;
                 }
                 Some(sp) => {
                     if let Err(why) = span_inside(src, &sp) {
-                        self.d("C12:instruction-span-outside-text", json!({"replay_kind": "chunk", "program": src, "ip": ip, "span": span_s(&sp), "why": why}));
+                        self.d("C12:instruction-span-outside-text", json!({"replay_kind": "chunk", "settings": [settings().0, settings().1], "program": src, "ip": ip, "span": span_s(&sp), "why": why}));
                         return;
                     }
                     if !node_spans.contains(&sp) {
-                        self.d("C12:instruction-span-not-a-node", json!({"replay_kind": "chunk", "program": src, "ip": ip, "span": span_s(&sp), "instruction": format!("{:?}", instr)}));
+                        self.d("C12:instruction-span-not-a-node", json!({"replay_kind": "chunk", "settings": [settings().0, settings().1], "program": src, "ip": ip, "span": span_s(&sp), "instruction": format!("{:?}", instr)}));
                         return;
                     }
                     if let koto_bytecode::Instruction::Function { size, .. } = instr {
@@ -1363,7 +1462,7 @@ impl Ctx {
                 if bad {
                     self.d(
                         "C12:function-range-span",
-                        json!({"replay_kind": "chunk", "program": src, "ip": ip, "span": span_s(sp), "function_span": span_s(fsp), "function_code": [lo, hi],
+                        json!({"replay_kind": "chunk", "settings": [settings().0, settings().1], "program": src, "ip": ip, "span": span_s(sp), "function_span": span_s(fsp), "function_code": [lo, hi],
                                "what": if inside_code { "an instruction of the function's code has a span outside the function literal" } else { "an instruction outside the function's code has a span inside the function's body" }}),
                     );
                     return;
@@ -1383,10 +1482,10 @@ impl Ctx {
         let model = self.drv.ask(&req);
         let real = run_real(src);
         let nontrivial = !p.calls.is_empty() || src.lines().count() >= 8;
-        self.rep.case(&format!("{req} {}", kvh::fnv1a(src.as_bytes())), nontrivial);
+        self.rep.case(&format!("{req} {} {}", kvh::fnv1a(src.as_bytes()), settings_label()), nontrivial);
         let mut fail: Option<(String, Value)> = None;
         let detail = |what: &str, extra: Value| -> Value {
-            json!({"replay_kind": "planted", "program": src, "fault_line": p.fault_line,
+            json!({"replay_kind": "planted", "settings": [settings().0, settings().1], "program": src, "fault_line": p.fault_line,
                    "calls": p.calls.iter().map(|c| json!([c.line, c.end, c.in_try, c.nat, c.adp, c.generator])).collect::<Vec<_>>(),
                    "fault_in_try": p.fault_in_try, "model": model, "what": what, "observed": extra})
         };
@@ -1530,6 +1629,19 @@ impl Ctx {
                     self.check_chunk_spans(&p.src, &chunk);
                 }
             }
+            // the same program under another combination of the compiler's code generation flags
+            // (positions must not depend on them); a fault that IS a type check needs them enabled
+            let type_fault = p.stats.iter().any(|x| x == "fault=12" || x == "fault=typed-arg");
+            let alt = if type_fault { (true, true) } else { *rng.pick(&[(false, false), (false, false), (true, true), (true, false)]) };
+            set_settings(alt);
+            self.rep.bump(&format!("settings={}", settings_label()));
+            self.planted_case(&p, false);
+            if i % 4 == 1 {
+                if let Ok(chunk) = compile(&p.src) {
+                    self.check_chunk_spans(&p.src, &chunk);
+                }
+            }
+            set_settings(DEFAULT_SETTINGS);
             if i % 16 == 0 {
                 self.koto_api_agrees(&p.src);
             }
@@ -1559,6 +1671,9 @@ impl Ctx {
     /// cause rules of open findings about compile error positions (active only while the finding is
     /// listed as `known`; once it is `fixed` the same observation is a VIOLATION)
     fn attribute_compile_error(&mut self, src: &str, sp: &Span, msg: &str, expect_line: usize) -> bool {
+        if !self.attribute {
+            return false;
+        }
         let ls = lines_of(src);
         let at_span: String = ls.get(sp.start.line as usize).map(|l| l.chars().skip(sp.start.column as usize).collect()).unwrap_or_default();
         let earlier = (sp.start.line as usize) < expect_line;
@@ -1583,7 +1698,7 @@ impl Ctx {
     /// line after a trailing `->`) is reported with the span of the whole pipe expression: the span
     /// ends at the callee on the expected line and starts on an earlier line
     fn attribute_pipe_frame(&mut self, src: &str, sp: &Span, expect_line: usize) -> bool {
-        if !self.open.iter().any(|x| x == "F-C12-4") {
+        if !self.attribute || !self.open.iter().any(|x| x == "F-C12-4") {
             return false;
         }
         let ls = lines_of(src);
@@ -1594,8 +1709,12 @@ impl Ctx {
         let upto: String = l.chars().take(sp.end.column as usize).collect();
         let t = upto.trim_start();
         let t = t.strip_prefix("->").unwrap_or(t).trim_start();
-        let t = t.strip_prefix('(').and_then(|x| x.strip_suffix(')')).unwrap_or(t);
-        let is_id = !t.is_empty() && t.chars().all(|c| c.is_ascii_alphanumeric() || c == '_') && !t.starts_with(|c: char| c.is_ascii_digit());
+        // (in parentheses also a dotted path: `-> (m.f)` takes the same fallback arm of the compiler)
+        let (t, paren) = match t.strip_prefix('(').and_then(|x| x.strip_suffix(')')) {
+            Some(x) => (x, true),
+            None => (t, false),
+        };
+        let is_id = !t.is_empty() && t.chars().all(|c| c.is_ascii_alphanumeric() || c == '_' || (paren && c == '.')) && !t.starts_with(|c: char| c.is_ascii_digit());
         if is_id {
             *self.known_hits.entry("F-C12-4".to_string()).or_default() += 1;
         }
@@ -1712,7 +1831,7 @@ impl Ctx {
     // ---- (D) debug prefix ----
     fn debug_case(&mut self, src: &str, expect: &[usize], quiet: bool) -> Option<String> {
         let real = run_real(src);
-        self.rep.case(&format!("debug {:?} {}", expect, kvh::fnv1a(src.as_bytes())), expect.len() >= 1);
+        self.rep.case(&format!("debug {:?} {} {}", expect, kvh::fnv1a(src.as_bytes()), settings_label()), expect.len() >= 1);
         let want: Vec<usize> = expect.iter().map(|l| l + 1).collect();
         let fail = match &real {
             Real::Ok { stdout } => {
@@ -1728,12 +1847,12 @@ impl Ctx {
                     })
                     .collect();
                 if got != want {
-                    Some(("C12:debug-prefix".to_string(), json!({"replay_kind": "debug", "program": src, "expected_prefix_lines": want, "observed_prefix_lines": got, "stdout": stdout})))
+                    Some(("C12:debug-prefix".to_string(), json!({"replay_kind": "debug", "settings": [settings().0, settings().1], "program": src, "expected_prefix_lines": want, "observed_prefix_lines": got, "stdout": stdout})))
                 } else {
                     None
                 }
             }
-            other => Some(("C12:debug-program-failed".to_string(), json!({"replay_kind": "debug", "program": src, "expected_prefix_lines": want, "observed": format!("{:?}", other)}))),
+            other => Some(("C12:debug-program-failed".to_string(), json!({"replay_kind": "debug", "settings": [settings().0, settings().1], "program": src, "expected_prefix_lines": want, "observed": format!("{:?}", other)}))),
         };
         // (K) Model/SrcMap.debugPrefixLine on the real chunk's source map (rebuilt from the lookups of
         // all instruction ips) at every Debug instruction = the set of prefixes actually printed
@@ -1796,6 +1915,9 @@ impl Ctx {
                 self.rep.bump(&s);
             }
             self.debug_case(&src, &expect, false);
+            set_settings(*rng.pick(&[(false, false), (true, true), (true, false)]));
+            self.debug_case(&src, &expect, false);
+            set_settings(DEFAULT_SETTINGS);
         }
     }
 }
@@ -1848,7 +1970,12 @@ fn mutate(rng: &mut Rng, p: &Planted) -> Option<(String, usize, String)> {
                 let (at, ind) = *rng.pick(&p.flat_stmts);
                 let c = *rng.pick(&closers);
                 lines.insert(at, format!("{}{}", " ".repeat(ind), c));
-                return Some((join(&lines, p.trailing), at, format!("stray-closer-line{c}")));
+                // several bad tokens on different lines: the first one is reported
+                let more = rng.weighted(&[2, 1, 1]);
+                for i in 0..more {
+                    lines.insert(at + 1 + i, format!("{}{}", " ".repeat(ind), *rng.pick(&closers)));
+                }
+                return Some((join(&lines, p.trailing), at, format!("stray-closer-line{c}{}", if more > 0 { ":repeated" } else { "" })));
             }
             1 => {
                 if p.flat_simple.is_empty() {
@@ -1865,7 +1992,11 @@ fn mutate(rng: &mut Rng, p: &Planted) -> Option<(String, usize, String)> {
                 let kw = *rng.pick(&["else", "else if true", "catch e", "finally", "then 1"]);
                 lines.insert(at, format!("{}q0 = 1", " ".repeat(ind)));
                 lines.insert(at + 1, format!("{}{}", " ".repeat(ind), kw));
-                return Some((join(&lines, p.trailing), at + 1, format!("orphan-{}", kw.split(' ').next().unwrap())));
+                let more = rng.weighted(&[2, 1, 1]);
+                for i in 0..more {
+                    lines.insert(at + 2 + i, format!("{}{}", " ".repeat(ind), *rng.pick(&["else", "catch e", "finally", "then 1"])));
+                }
+                return Some((join(&lines, p.trailing), at + 1, format!("orphan-{}{}", kw.split(' ').next().unwrap(), if more > 0 { ":repeated" } else { "" })));
             }
             3 => {
                 if p.flat_simple.is_empty() {
@@ -2182,7 +2313,7 @@ impl Ctx {
         let outcome = kvh::catch(|| {
             let mut vm = KotoVm::default();
             let mut loader = ModuleLoader::default();
-            let chunk = match loader.compile_script(&main_src, Some(main_path_s.as_str().into()), CompilerSettings::default()) {
+            let chunk = match loader.compile_script(&main_src, Some(main_path_s.as_str().into()), compiler_settings()) {
                 Ok(c) => c,
                 Err(e) => return Err(format!("main does not compile: {e}")),
             };
@@ -2204,7 +2335,7 @@ impl Ctx {
         });
         let _ = std::fs::remove_file(&mod_path);
         let _ = std::fs::remove_file(&main_path);
-        let det = |what: &str, extra: Value| json!({"replay_kind": "module", "module": module_src, "program": main_tpl, "frames": frames.iter().map(|(c, l)| json!([c, l])).collect::<Vec<_>>(), "model": model, "what": what, "observed": extra});
+        let det = |what: &str, extra: Value| json!({"replay_kind": "module", "settings": [settings().0, settings().1], "module": module_src, "program": main_tpl, "frames": frames.iter().map(|(c, l)| json!([c, l])).collect::<Vec<_>>(), "model": model, "what": what, "observed": extra});
         let mut fail: Option<(String, Value)> = None;
         if self.mod_counter == 7 || self.mod_counter == 157 {
             if let Ok(Ok((fr, _))) = &outcome {
@@ -2217,7 +2348,22 @@ impl Ctx {
             Err(p) => fail = Some(("C12:panic".into(), det("the implementation panicked", json!(p)))),
             Ok(Err(why)) => fail = Some(("C12:module-program".into(), det(&why, json!(null)))),
             Ok(Ok((fr, rendered))) => {
-                let real = format!("uncaught {}", fr.iter().map(|(c, sp, _)| format!("{c}:{}", sp.map(|s| s.start.line.to_string()).unwrap_or("none".into()))).collect::<Vec<_>>().join(" "));
+                let mut parts: Vec<String> = fr.iter().map(|(c, sp, _)| format!("{c}:{}", sp.map(|s| s.start.line.to_string()).unwrap_or("none".into()))).collect();
+                // open finding F-C12-4 (cause rule on the frame's span, see attribute_pipe_frame)
+                let want: Vec<String> = model.split(' ').skip(1).map(String::from).collect();
+                if model.starts_with("uncaught ") && want.len() == parts.len() {
+                    for i in 0..parts.len() {
+                        if parts[i] != want[i] && parts[i].split(':').next() == want[i].split(':').next() {
+                            if let (Some(sp), Some(l)) = (fr[i].1, want[i].split(':').nth(1).and_then(|x| x.parse::<usize>().ok())) {
+                                let text = fr[i].2.clone();
+                                if self.attribute_pipe_frame(&text, &sp, l) {
+                                    parts[i] = want[i].clone();
+                                }
+                            }
+                        }
+                    }
+                }
+                let real = format!("uncaught {}", parts.join(" "));
                 if real != model {
                     fail = Some(("C12:trace-lines".into(), det("reported (chunk, line) frames differ from the planted ones", json!({"impl_trace": real, "frames": fr.iter().map(|(c, sp, _)| format!("{c}:{}", ospan_s(sp))).collect::<Vec<_>>()}))));
                 } else {
@@ -2355,6 +2501,14 @@ fn planted_from(src: &str, fault_line: usize, calls: Vec<CallSite>, fault_in_try
 /// run one recorded case (replay file detail, corpus file, known-finding witness); returns the name
 /// of the failing clause, if any
 fn run_recorded(cx: &mut Ctx, d: &Value, quiet: bool) -> Option<String> {
+    let st = (d["settings"][0].as_bool().unwrap_or(DEFAULT_SETTINGS.0), d["settings"][1].as_bool().unwrap_or(DEFAULT_SETTINGS.1));
+    set_settings(st);
+    let r = run_recorded_inner(cx, d, quiet);
+    set_settings(DEFAULT_SETTINGS);
+    r
+}
+
+fn run_recorded_inner(cx: &mut Ctx, d: &Value, quiet: bool) -> Option<String> {
     let kind = d["replay_kind"].as_str().unwrap_or("planted");
     let src = d["program"].as_str().unwrap_or("");
     match kind {
@@ -2490,7 +2644,7 @@ fn main() {
     rep.rule = "cases: (a) random DebugInfo push sequences with all lookups 0..max+2 [non-trivial: >= 3 pushes]; (b) format_source_excerpt on random texts x random spans incl. out-of-guard ones [non-trivial: >= 2 lines or outside the guard]; (c) generated programs with a single-line fault planted at a known line inside 0-4 nested calls (call line = line of the callee token; call expressions may span lines) after random preceding constructs [non-trivial: >= 1 call level or >= 8 lines]; levels of the call chain may run inside callbacks of core-library functions (eager fold/any/all/find/position; lazy each/keep with their consumer), predicted by Trace.predictSegs; (d) one-token syntactic breaks of such programs with an unambiguous first bad token, and end-of-input cuts with at most one trailing line break (expected line = last line with text); (e) programs with single- and multi-line debug expressions; (f) a fault inside a function of an imported module (two chunks with their own texts and paths), called through 1-3 call sites in module and main script. The language guide does not say which line a failing multi-line expression reports, so planted faults are single-line expressions and for multi-line call expressions only the start line (callee token) is fixed, the reported span must stay inside the call expression. (g) planted-fault kinds added for seeded C12-mut1..3: a failing node at every position of a (mostly multi-line) chain `root` / `.id` / `.\"str\"` with `[i]`, `(call)` and `?` suffixes, with and without `?` after each node, also as assignment target (expected line = the line of the access the node is attached to), call sites that are nodes of multi-line chains, failing operations on registers only (locals / parameters) so that the fault is the first instruction of its statement, functions that are generators whose key statement follows 0-3 `yield`s and whose call site is a consumer (for loop, next(), to_tuple/to_list/count/consume/last, lazy adaptors, unpacking, iterator.next, match) predicted as one more interpreter entry by Trace.predictSegs, the fault itself inside a core-library callback (first instruction of the callback); (h) K1 on real chunks: for generated chains the spans of the Access/AccessString/Index/Call/JumpIfNull instructions in the compiled chunk's source map vs SrcMap.compile on the chain's nesting structure and vs the line of each node [non-trivial: >= 3 nodes]; (i) breaks inside multi-line bracketed constructs (call args, chained calls, list, tuple, map, parameter list, nested, index on one line): element after a missing comma, `then`/`else`, `=`, mismatched closer, on a line of their own or after the previous element, after 0-3 well-formed elements (expected line = the bad token's line; for `=` directly after a literal on the previous line the assignment's target is the offending token); (j) debug statements directly after a `yield` in generators consumed completely, debug of a local/parameter (no instruction before the debug instruction). distinct = distinct request/program texts".into();
     let drv = Driver::spawn(&args.driver);
     let open: Vec<String> = rep.known_open().iter().filter_map(|e| e["id"].as_str().map(|s| s.to_string())).collect();
-    let mut cx = Ctx { rep, drv, k_fail: 0, d_fail: 0, known_hits: Default::default(), open, verbose: args.replay.is_some(), mod_counter: 0 };
+    let mut cx = Ctx { rep, drv, k_fail: 0, d_fail: 0, known_hits: Default::default(), open, verbose: args.replay.is_some(), mod_counter: 0, attribute: true };
 
     if let Some(p) = &args.replay {
         let v: Value = serde_json::from_str(&std::fs::read_to_string(p).expect("replay file")).unwrap();
@@ -2509,7 +2663,9 @@ fn main() {
         let id = e["id"].as_str().unwrap_or("?").to_string();
         let open = e["status"] == "known";
         let Some(d) = e.get("replay") else { continue };
+        cx.attribute = false;
         let r = run_recorded(&mut cx, d, true);
+        cx.attribute = true;
         match (open, r) {
             (true, Some(clause)) => {
                 let what = e["what"].as_str().unwrap_or("");
@@ -2539,6 +2695,7 @@ fn main() {
     }
 
     cx.check_stage_table();
+    cx.check_adaptor_table();
     let mut rng = Rng::new(args.seed);
     let t = args.thorough();
     let (n_map, n_exc, n_pl, n_br, n_dbg, n_mod) = if t { (40000, 40000, 60000, 40000, 12000, 6000) } else { (3000, 3000, 4000, 3000, 1000, 400) };
